@@ -29,9 +29,9 @@ CONFIGS = {
     "asan": ("g++", ["-O1", "-g1"] + SAN, ["-O1", "-g1"] + SAN, SAN),
     "sched": ("clang++",
               ["-O0", "-g1", "-fsanitize=address",
-               "-fsanitize-coverage=func,bb,trace-pc-guard,trace-loads,trace-stores"],
+               "-fsanitize-coverage=bb,trace-pc-guard,pc-table,trace-loads,trace-stores"],
               ["-O1", "-g1", "-fsanitize=address"],
-              ["-fsanitize=address"]),
+              ["-fsanitize=address", "-rdynamic", "-ldl"]),
     "tsan": ("clang++", ["-O1", "-g1", "-fsanitize=thread"], ["-O1", "-g1", "-fsanitize=thread"],
              ["-fsanitize=thread"]),
     "plainA": ("g++", ["-O1", "-g1", "-ftrivial-auto-var-init=zero"], ["-O1", "-g1"], []),
